@@ -1,13 +1,273 @@
-//! c02: bounded stand-in (E3) -- see DESIGN.md section 5
-#![allow(dead_code, unused_imports)]
+//! C02: well-formed PDFs from any producer load to their content.  An independent reference writer renders a small
+//! abstract document under every combination of a set of syntactic choices (enumerated, not sampled); the real loader
+//! must return exactly the abstract document.
+#![allow(dead_code)]
 use crate::common::*;
 use crate::gen::*;
+use lopdf::{Dictionary, Document, Object, Stream, StringFormat};
 use serde_json::{json, Value};
+use std::collections::BTreeMap;
+use std::io::Write as _;
 
-pub fn run(_thorough: bool) -> Report {
-    Report::new("not built yet", false)
+#[derive(Clone, Debug)]
+pub struct Style {
+    pub eol: usize,        // 0 \n, 1 \r\n, 2 \r
+    pub ws: usize,         // 0 single space, 1 extra mixed white-space (incl. NUL, FF, tab), 2 comments between tokens
+    pub strs: usize,       // 0 literal plain escapes, 1 octal escapes + line continuation, 2 hex with white-space / odd digit count
+    pub names: usize,      // 0 plain, 1 #XX for ordinary letters
+    pub nums: usize,       // 0 plain, 1 "+7" "-.5" "1." "007"
+    pub order: usize,      // 0 ascending, 1 descending objects in the body
+    pub xref: usize,       // 0 one table section, 1 many sections, 2 xref stream W[1 2 1], 3 W[1 3 0]+Index, 4 W[2 4 2] Flate, 5 W[1 2 1] Flate+Predictor 12, 6 W [0 2 0]
+    pub objstm: bool,      // non-stream objects 2.. go into an object stream (needs an xref stream)
+    pub indirect_len: bool,
+    pub junk: bool,
 }
 
-pub fn replay(_v: &Value) -> Result<(), String> {
-    Err("no replay".into())
+fn eol(s: &Style) -> &'static [u8] { [b"\n".as_slice(), b"\r\n", b"\r"][s.eol] }
+fn sp(s: &Style, k: usize) -> Vec<u8> {
+    match s.ws {
+        0 => b" ".to_vec(),
+        1 => [b" ".as_slice(), b"\x00 ", b"\t\x0c", b"  \n "][k % 4].to_vec(),
+        _ => { let mut v = b" % a comment (with <junk> [ ".to_vec(); v.extend_from_slice(eol(s)); v }
+    }
+}
+
+fn wstr(b: &[u8], s: &Style, out: &mut Vec<u8>) {
+    match s.strs {
+        0 => { out.push(b'('); for &c in b { match c { b'(' | b')' | b'\\' => { out.push(b'\\'); out.push(c) } b'\r' => out.extend_from_slice(b"\\r"), b'\n' => out.extend_from_slice(b"\\n"), _ => out.push(c) } } out.push(b')'); }
+        1 => { out.push(b'('); for (i, &c) in b.iter().enumerate() { if i == 1 { out.extend_from_slice(b"\\\n"); } if c.is_ascii_alphanumeric() && i % 2 == 0 { out.push(c) } else { out.extend_from_slice(format!("\\{:03o}", c).as_bytes()) } } out.push(b')'); }
+        _ => { out.push(b'<'); let h: String = b.iter().map(|c| format!("{:02X}", c)).collect(); let mut h = h.into_bytes(); if h.ends_with(b"0") { h.pop(); } for (i, c) in h.iter().enumerate() { out.push(*c); if i % 3 == 2 { out.push(b' '); } } out.push(b'>'); }
+    }
+}
+fn wname(n: &[u8], s: &Style, out: &mut Vec<u8>) {
+    out.push(b'/');
+    for (i, &c) in n.iter().enumerate() {
+        let regular = c > 32 && c < 127 && !b"()<>[]{}/%#".contains(&c);
+        if !regular || (s.names == 1 && i % 2 == 0) { out.extend_from_slice(format!("#{:02x}", c).as_bytes()) } else { out.push(c) }
+    }
+}
+fn wnum_i(v: i64, s: &Style, out: &mut Vec<u8>) {
+    if s.nums == 1 && v >= 0 { out.extend_from_slice(format!("+{:03}", v).as_bytes()) } else { out.extend_from_slice(v.to_string().as_bytes()) }
+}
+fn wnum_r(v: f32, s: &Style, out: &mut Vec<u8>) {
+    let t = format!("{}", v);
+    if s.nums == 1 {
+        if v.fract() == 0.0 { out.extend_from_slice(format!("{}.", v as i64).as_bytes()) }
+        else if v.abs() < 1.0 { out.extend_from_slice(t.replacen("0.", ".", 1).as_bytes()) }
+        else { out.extend_from_slice(t.as_bytes()) }
+    } else if v.fract() == 0.0 { out.extend_from_slice(format!("{:.1}", v).as_bytes()) } else { out.extend_from_slice(t.as_bytes()) }
+}
+
+fn wobj(o: &Object, s: &Style, out: &mut Vec<u8>, k: &mut usize) {
+    *k += 1;
+    match o {
+        Object::Null => out.extend_from_slice(b"null"),
+        Object::Boolean(b) => out.extend_from_slice(if *b { b"true" } else { b"false" }),
+        Object::Integer(i) => wnum_i(*i, s, out),
+        Object::Real(r) => wnum_r(*r, s, out),
+        Object::Name(n) => wname(n, s, out),
+        Object::String(b, _) => wstr(b, s, out),
+        Object::Array(a) => { out.push(b'['); for x in a { out.extend_from_slice(&sp(s, *k)); wobj(x, s, out, k); } out.extend_from_slice(&sp(s, *k)); out.push(b']'); }
+        Object::Dictionary(d) => wdict(d, s, out, k),
+        Object::Reference(id) => { out.extend_from_slice(format!("{}", id.0).as_bytes()); out.extend_from_slice(&sp(s, *k)); out.extend_from_slice(format!("{}", id.1).as_bytes()); out.extend_from_slice(&sp(s, *k + 1)); out.push(b'R'); }
+        Object::Stream(_) => unreachable!(),
+    }
+}
+fn wdict(d: &Dictionary, s: &Style, out: &mut Vec<u8>, k: &mut usize) {
+    out.extend_from_slice(b"<<");
+    for (key, v) in d.iter() { out.extend_from_slice(&sp(s, *k)); wname(key, s, out); out.extend_from_slice(&sp(s, *k + 1)); wobj(v, s, out, k); }
+    out.extend_from_slice(&sp(s, *k));
+    out.extend_from_slice(b">>");
+}
+
+fn zlib(data: &[u8]) -> Vec<u8> {
+    let mut e = flate2::write::ZlibEncoder::new(Vec::new(), flate2::Compression::default());
+    e.write_all(data).unwrap();
+    e.finish().unwrap()
+}
+fn png_up(data: &[u8], cols: usize) -> Vec<u8> {
+    let mut out = vec![];
+    let mut prev = vec![0u8; cols];
+    for row in data.chunks(cols) {
+        out.push(2);
+        for (i, b) in row.iter().enumerate() { out.push(b.wrapping_sub(prev[i])); }
+        prev = row.to_vec();
+    }
+    out
+}
+
+/// the abstract document: object number -> (generation, value); streams carry their decoded content
+pub fn abstract_doc(variant: usize) -> BTreeMap<u32, (u16, Object)> {
+    let mut m = BTreeMap::new();
+    m.insert(1, (0, Object::Dictionary(dict(vec![(b"Type", name(b"Catalog")), (b"Pages", Object::Reference((2, 0))), (b"Lang", lit(b"en-US (x) \\ \r\n end"))]))));
+    m.insert(2, (0, Object::Dictionary(dict(vec![(b"Type", name(b"Pages")), (b"Kids", Object::Array(vec![Object::Reference((4, 0))])), (b"Count", Object::Integer(1)), (b"Box", Object::Array(vec![Object::Integer(0), Object::Real(-0.5), Object::Real(612.0), Object::Real(7.25)]))]))));
+    m.insert(4, (if variant == 1 { 3 } else { 0 }, Object::Dictionary(dict(vec![(b"Type", name(b"Page")), (b"Parent", Object::Reference((2, 0))), (b"Contents", Object::Reference((7, 0))), (b"A B", Object::Array(vec![Object::Null, Object::Boolean(true), Object::Boolean(false), hexs(b"\x00\xff\x10"), name(b"Na#me")]))]))));
+    let mut st = Stream::new(dict(vec![(b"K", Object::Integer(7))]), b"BT /F1 12 Tf (endstream) Tj ET\nendstream \x00\xff".to_vec());
+    st.dict.remove(b"Length");
+    m.insert(7, (0, Object::Stream(st)));
+    if variant >= 1 { m.insert(12, (0, Object::Array(vec![Object::Integer(i64::MAX), Object::Integer(-1), lit(b""), name(b"")]))); }
+    m
+}
+
+pub fn render(doc: &BTreeMap<u32, (u16, Object)>, s: &Style) -> Vec<u8> {
+    let e = eol(s);
+    let mut f = Vec::new();
+    if s.junk { f.extend_from_slice(b"junk before the header\n\x00\x01"); }
+    let base = f.len();
+    f.extend_from_slice(b"%PDF-1.6"); f.extend_from_slice(e);
+    f.extend_from_slice(b"%\xe2\xe3\xcf\xd3"); f.extend_from_slice(e);
+    let mut k = 0usize;
+    let mut entries: BTreeMap<u32, (u8, u64, u64)> = BTreeMap::new();
+    let use_stream_xref = s.xref >= 2;
+    let mut ids: Vec<u32> = doc.keys().copied().collect();
+    if s.order == 1 { ids.reverse(); }
+    let mut next_id = doc.keys().max().copied().unwrap_or(0) + 1;
+    let in_objstm = |id: u32, o: &Object, g: u16| s.objstm && use_stream_xref && id != 1 && g == 0 && !matches!(o, Object::Stream(_));
+    let len_obj = if s.indirect_len { let id = next_id; next_id += 1; Some(id) } else { None };
+    let mut deferred_len: Option<(u32, usize)> = None;
+    for id in &ids {
+        let (g, o) = &doc[id];
+        if in_objstm(*id, o, *g) { continue; }
+        entries.insert(*id, (1, (f.len() - base) as u64, *g as u64));
+        f.extend_from_slice(format!("{}", id).as_bytes()); f.extend_from_slice(&sp(s, k)); f.extend_from_slice(format!("{}", g).as_bytes()); f.extend_from_slice(&sp(s, k + 1)); f.extend_from_slice(b"obj"); f.extend_from_slice(e);
+        match o {
+            Object::Stream(st) => {
+                let mut d = st.dict.clone();
+                if let Some(l) = len_obj { d.set("Length", Object::Reference((l, 0))); deferred_len = Some((l, st.content.len())); } else { d.set("Length", st.content.len() as i64); }
+                wdict(&d, s, &mut f, &mut k);
+                f.extend_from_slice(e); f.extend_from_slice(b"stream"); f.extend_from_slice(if s.eol == 2 { b"\r\n" } else { e });
+                f.extend_from_slice(&st.content);
+                f.extend_from_slice(e); f.extend_from_slice(b"endstream");
+            }
+            _ => wobj(o, s, &mut f, &mut k),
+        }
+        f.extend_from_slice(e); f.extend_from_slice(b"endobj"); f.extend_from_slice(e);
+    }
+    if let Some((l, n)) = deferred_len {
+        entries.insert(l, (1, (f.len() - base) as u64, 0));
+        f.extend_from_slice(format!("{} 0 obj{}{}{}endobj{}", l, String::from_utf8_lossy(e), n, String::from_utf8_lossy(e), String::from_utf8_lossy(e)).as_bytes());
+    } else if let Some(l) = len_obj { entries.insert(l, (1, (f.len() - base) as u64, 0)); f.extend_from_slice(format!("{} 0 obj 0 endobj\n", l).as_bytes()); }
+    // object stream
+    let packed: Vec<u32> = doc.iter().filter(|(id, (g, o))| in_objstm(**id, o, *g)).map(|(id, _)| *id).collect();
+    if !packed.is_empty() {
+        let cid = next_id; next_id += 1;
+        let mut index = Vec::new(); let mut body = Vec::new();
+        for (i, id) in packed.iter().enumerate() {
+            index.extend_from_slice(format!("{} {}", id, body.len()).as_bytes()); index.extend_from_slice(if i % 2 == 0 { b" " } else { b"\n" });
+            wobj(&doc[id].1, s, &mut body, &mut k); body.extend_from_slice(&sp(s, k));
+            entries.insert(*id, (2, cid as u64, i as u64));
+        }
+        let mut content = index.clone(); content.extend_from_slice(&body);
+        let z = zlib(&content);
+        entries.insert(cid, (1, (f.len() - base) as u64, 0));
+        f.extend_from_slice(format!("{} 0 obj\n<</Type/ObjStm/N {}/First {}/Filter/FlateDecode/Length {}>>stream\n", cid, packed.len(), index.len(), z.len()).as_bytes());
+        f.extend_from_slice(&z); f.extend_from_slice(b"\nendstream\nendobj\n");
+    }
+    let xref_pos = f.len() - base;
+    let size = next_id + if use_stream_xref { 1 } else { 0 };
+    if !use_stream_xref {
+        f.extend_from_slice(b"xref"); f.extend_from_slice(e);
+        let line_end: &[u8] = if s.eol == 0 { b" \n" } else if s.eol == 2 { b" \r" } else { b"\r\n" };
+        let mut all: BTreeMap<u32, (u64, u64, u8)> = BTreeMap::new();
+        all.insert(0, (0, 65535, b'f'));
+        for (id, (_, off, g)) in &entries { all.insert(*id, (*off, *g, b'n')); }
+        if s.xref == 0 {
+            // one section covering 0..size with free entries in the gaps
+            f.extend_from_slice(format!("0 {}", size).as_bytes()); f.extend_from_slice(e);
+            for id in 0..size { let (off, g, t) = all.get(&id).copied().unwrap_or((0, 0, b'f')); f.extend_from_slice(format!("{:010} {:05} ", off, g).as_bytes()); f.push(t); f.extend_from_slice(line_end); }
+        } else {
+            let keys: Vec<u32> = all.keys().copied().collect();
+            let mut i = 0;
+            while i < keys.len() {
+                let mut j = i; while j + 1 < keys.len() && keys[j + 1] == keys[j] + 1 { j += 1; }
+                f.extend_from_slice(format!("{} {}", keys[i], j - i + 1).as_bytes()); f.extend_from_slice(e);
+                for id in &keys[i..=j] { let (off, g, t) = all[id]; f.extend_from_slice(format!("{:010} {:05} ", off, g).as_bytes()); f.push(t); f.extend_from_slice(line_end); }
+                i = j + 1;
+            }
+        }
+        f.extend_from_slice(b"trailer"); f.extend_from_slice(e);
+        f.extend_from_slice(format!("<</Size {}/Root 1 0 R>>", size).as_bytes()); f.extend_from_slice(e);
+    } else {
+        let xid = next_id;
+        entries.insert(xid, (1, xref_pos as u64, 0));
+        let w: [usize; 3] = match s.xref { 2 | 5 => [1, 2, 1], 3 => [1, 3, 0], 4 => [2, 4, 2], _ => [0, 2, 0] };
+        let only_type1 = w[0] == 0;
+        let mut rows = Vec::new(); let mut index = String::new();
+        let mut list: Vec<(u32, (u8, u64, u64))> = entries.iter().map(|(a, b)| (*a, *b)).collect();
+        if s.xref != 3 { list.insert(0, (0, (0, 0, if w[2] == 1 { 255 } else { 65535 }))); }
+        if only_type1 { list.retain(|(_, (t, _, _))| *t == 1); }
+        let mut i = 0;
+        while i < list.len() { let mut j = i; while j + 1 < list.len() && list[j + 1].0 == list[j].0 + 1 { j += 1; } index.push_str(&format!("{} {} ", list[i].0, j - i + 1)); i = j + 1; }
+        for (_, (t, a, b)) in &list {
+            if w[0] > 0 { rows.extend_from_slice(&(*t as u64).to_be_bytes()[8 - w[0]..]); }
+            rows.extend_from_slice(&a.to_be_bytes()[8 - w[1]..]);
+            if w[2] > 0 { rows.extend_from_slice(&b.to_be_bytes()[8 - w[2]..]); }
+        }
+        let rl = w[0] + w[1] + w[2];
+        let (data, extra) = match s.xref { 4 => (zlib(&rows), "/Filter/FlateDecode".to_string()), 5 => (zlib(&png_up(&rows, rl)), format!("/Filter/FlateDecode/DecodeParms<</Predictor 12/Columns {}>>", rl)), _ => (rows.clone(), String::new()) };
+        let idx = if s.xref == 2 && list.len() as u32 == size && list.first().map(|x| x.0) == Some(0) { String::new() } else { format!("/Index[{}]", index.trim()) };
+        f.extend_from_slice(format!("{} 0 obj\n<</Type/XRef/Size {}/Root 1 0 R/W[{} {} {}]{}{}/Length {}>>stream\n", xid, size, w[0], w[1], w[2], idx, extra, data.len()).as_bytes());
+        f.extend_from_slice(&data); f.extend_from_slice(b"\nendstream\nendobj\n");
+    }
+    f.extend_from_slice(b"startxref"); f.extend_from_slice(e);
+    f.extend_from_slice(format!("{}", xref_pos).as_bytes()); f.extend_from_slice(e);
+    f.extend_from_slice(b"%%EOF");
+    if s.ws == 1 { f.extend_from_slice(e); }
+    f
+}
+
+pub fn check(variant: usize, s: &Style) -> Result<(), (String, String)> {
+    // a W [0 n 0] stream can only express type-1 entries; W [1 3 0] defaults generation 0: restrict the abstract document accordingly
+    let mut doc = abstract_doc(variant);
+    if s.xref == 3 || s.xref == 6 { for (_, (g, _)) in doc.iter_mut() { *g = 0; } }
+    let mut st = s.clone();
+    if s.xref == 6 { st.objstm = false; }
+    if s.junk { return check_junk(&doc, &st); }
+    check_bytes(&doc, &render(&doc, &st))
+}
+fn check_junk(doc: &BTreeMap<u32, (u16, Object)>, s: &Style) -> Result<(), (String, String)> { check_bytes(doc, &render(doc, s)) }
+
+fn check_bytes(doc: &BTreeMap<u32, (u16, Object)>, file: &[u8]) -> Result<(), (String, String)> {
+    let loaded = match guarded(|| Document::load_mem(file)) { Ok(Ok(d)) => d, Ok(Err(e)) => return Err(("loads".into(), format!("load failed: {}", e))), Err(p) => return Err(("no-panic".into(), p)) };
+    if loaded.version != "1.6" { return Err(("version".into(), format!("version {:?}", loaded.version))); }
+    for (id, (g, want)) in doc {
+        match loaded.objects.get(&(*id, *g)) {
+            None => return Err(("object-present".into(), format!("object {} {} defined by the file is missing after load", id, g))),
+            Some(got) => {
+                let same = match (want, got) {
+                    (Object::Stream(a), Object::Stream(b)) => a.content == b.content && dict_eq(&a.dict, &b.dict, &[b"Length"]),
+                    _ => obj_eq(want, got),
+                };
+                if !same { return Err(("object-equal".into(), format!("object {} {}: file defines {:?}, loaded {:?}", id, g, want, got))); }
+            }
+        }
+    }
+    if loaded.trailer.get(b"Root").and_then(|o| o.as_reference()).ok() != Some((1, 0)) { return Err(("trailer".into(), format!("trailer {:?}", loaded.trailer))); }
+    Ok(())
+}
+
+fn style_json(v: usize, s: &Style) -> Value { json!({"variant": v, "eol": s.eol, "ws": s.ws, "strs": s.strs, "names": s.names, "nums": s.nums, "order": s.order, "xref": s.xref, "objstm": s.objstm, "indirect_len": s.indirect_len, "junk": s.junk}) }
+fn style_from(v: &Value) -> (usize, Style) {
+    let g = |k: &str| v[k].as_u64().unwrap_or(0) as usize;
+    (g("variant"), Style { eol: g("eol"), ws: g("ws"), strs: g("strs"), names: g("names"), nums: g("nums"), order: g("order"), xref: g("xref"), objstm: v["objstm"].as_bool().unwrap_or(false), indirect_len: v["indirect_len"].as_bool().unwrap_or(false), junk: v["junk"].as_bool().unwrap_or(false) })
+}
+
+pub fn run(thorough: bool) -> Report {
+    let mut rep = Report::new("2 abstract documents x every combination of: EOL {LF,CRLF,CR} x white-space {single, mixed incl. NUL/FF/tab, comments} x strings {literal escapes, octal + line continuation, hex with white-space / odd digits} x names {plain, #XX} x numbers {plain, +007 / -.5 / 1.} x body order {asc, desc} x xref {1 table section, many sections, stream W[1 2 1], W[1 3 0]+Index, W[2 4 2] Flate, W[1 2 1] Flate+PNG Up, W[0 2 0]} x object stream {no, yes} x indirect Length {no, yes} x leading junk {no, yes} (quick: every 7th combination)", thorough);
+    let mut n = 0usize;
+    for variant in 0..2 { for eol in 0..3 { for ws in 0..3 { for strs in 0..3 { for names in 0..2 { for nums in 0..2 { for order in 0..2 { for xref in 0..7 { for objstm in [false, true] { for il in [false, true] { for junk in [false, true] {
+        if objstm && xref < 2 { continue; }
+        n += 1;
+        if !thorough && n % 7 != 0 { continue; }
+        let s = Style { eol, ws, strs, names, nums, order, xref, objstm, indirect_len: il, junk };
+        rep.case(true);
+        if let Err((o, d)) = check(variant, &s) { rep.fail(&o, d.clone(), style_json(variant, &s), d); }
+    } } } } } } } } } } }
+    rep.sample("variant 1, CRLF, comments between tokens, octal strings, #XX names, xref stream W[1 2 1] Flate + PNG Up predictor, object stream, indirect Length".into());
+    rep
+}
+
+pub fn replay(v: &Value) -> Result<(), String> {
+    let (variant, s) = style_from(v);
+    check(variant, &s).map_err(|e| format!("{}: {}", e.0, e.1))
 }
